@@ -1,3 +1,871 @@
+// Command vsim is the driver of the deterministic-simulation checks.
+//
+//	vsim check <property> [--tier quick|thorough]   (VERIF_SEED, VERIF_TIER honoured)
+//	vsim replay <file>
+//	vsim selftest
+//
+// Every invocation rebuilds an instrumented scratch copy of /repo's current
+// working tree, runs seeded simulated runs in worker processes, classifies
+// failures against /verif/known_findings.json, minimises and replays anything
+// that is not listed, writes /verif/evidence/<id>.json and exits
+// 0 (held), 1 (VIOLATION line printed) or 2 (infrastructure trouble).
 package main
 
-func main() {}
+import (
+	"bufio"
+	"encoding/json"
+	"fmt"
+	"os"
+	"os/exec"
+	"path/filepath"
+	"runtime"
+	"sort"
+	"strconv"
+	"strings"
+	"sync"
+	"time"
+)
+
+var verifDir = "/verif"
+
+type propSpec struct {
+	engine string // conc | history | stream
+	race   bool
+	quick  int // runs
+	thor   int
+	capQ   time.Duration // wall-clock cap for the run phase
+	capT   time.Duration
+}
+
+var props = map[string]propSpec{
+	"C06": {"conc", true, 8000, 400000, 100 * time.Second, 45 * time.Minute},
+	"C13": {"history", false, 24000, 600000, 150 * time.Second, 40 * time.Minute},
+	"C10": {"history", false, 16000, 400000, 120 * time.Second, 30 * time.Minute},
+	"C20": {"history", false, 12000, 300000, 120 * time.Second, 30 * time.Minute},
+	"C01": {"stream", false, 160000, 4000000, 60 * time.Second, 10 * time.Minute},
+	"C02": {"stream", false, 160000, 4000000, 60 * time.Second, 10 * time.Minute},
+	"C03": {"stream", false, 160000, 4000000, 60 * time.Second, 10 * time.Minute},
+	"C11": {"stream", false, 160000, 4000000, 60 * time.Second, 10 * time.Minute},
+}
+
+type failure struct {
+	Kind     string          `json:"kind"`
+	Engine   string          `json:"engine"`
+	Index    int             `json:"index"`
+	Seed     uint64          `json:"seed"`
+	Outcome  json.RawMessage `json:"outcome"`
+	Scenario json.RawMessage `json:"scenario"`
+}
+
+type knownFinding struct {
+	Status   string         `json:"status"` // known | fixed
+	Property string         `json:"property"`
+	Kind     string         `json:"kind"` // race | result | alloc | invariant
+	Key      map[string]any `json:"key"`
+	What     string         `json:"what"`
+	Replay   string         `json:"replay,omitempty"`
+	Commit   string         `json:"commit,omitempty"`
+	ID       string         `json:"id"`
+}
+
+func fatal(format string, a ...any) {
+	fmt.Fprintf(os.Stderr, "vsim: "+format+"\n", a...)
+	os.Exit(2)
+}
+
+func main() {
+	if v := os.Getenv("VERIF_DIR"); v != "" {
+		verifDir = v
+	}
+	if len(os.Args) < 2 {
+		fatal("usage: vsim check <id> [--tier quick|thorough] | replay <file> | selftest")
+	}
+	switch os.Args[1] {
+	case "check":
+		if len(os.Args) < 3 {
+			fatal("check needs a property id")
+		}
+		tier := os.Getenv("VERIF_TIER")
+		for i := 3; i < len(os.Args); i++ {
+			if os.Args[i] == "--tier" && i+1 < len(os.Args) {
+				tier = os.Args[i+1]
+			}
+		}
+		if tier == "" {
+			tier = "quick"
+		}
+		os.Exit(check(os.Args[2], tier))
+	case "replay":
+		if len(os.Args) < 3 {
+			fatal("replay needs a file")
+		}
+		os.Exit(replay(os.Args[2]))
+	case "selftest":
+		os.Exit(selftest())
+	default:
+		fatal("unknown command %s", os.Args[1])
+	}
+}
+
+func baseSeed(tier string) uint64 {
+	if v := os.Getenv("VERIF_SEED"); v != "" {
+		if n, err := strconv.ParseUint(v, 10, 64); err == nil {
+			return n
+		}
+		if n, err := strconv.ParseInt(v, 10, 64); err == nil {
+			return uint64(n)
+		}
+	}
+	if tier == "thorough" {
+		return 20260923
+	}
+	return 1
+}
+
+// scratch builds the instrumented copy and the workers; returns the directory.
+func scratch() (string, func()) {
+	dir, err := os.MkdirTemp(tmpRoot(), "vsim-")
+	if err != nil {
+		fatal("mktemp: %v", err)
+	}
+	cleanup := func() { os.RemoveAll(dir) }
+	cmd := exec.Command(filepath.Join(verifDir, "mkscratch.sh"), dir)
+	cmd.Stdout = os.Stderr
+	cmd.Stderr = os.Stderr
+	if err := cmd.Run(); err != nil {
+		cleanup()
+		fatal("building the instrumented copy of /repo failed: %v", err)
+	}
+	return dir, cleanup
+}
+
+func tmpRoot() string {
+	if v := os.Getenv("VERIF_TMP"); v != "" {
+		return v
+	}
+	return "/var/tmp"
+}
+
+func workerEnv(dir string, race bool, nodedup bool) []string {
+	env := os.Environ()
+	if race {
+		g := "log_path=" + filepath.Join(dir, "logs", "race") + " exitcode=0 history_size=7 halt_on_error=0"
+		if nodedup {
+			g += " suppress_equal_stacks=0 suppress_equal_addresses=0"
+		}
+		env = append(env, "GORACE="+g)
+	}
+	return env
+}
+
+type shardResult struct {
+	fails   []failure
+	summary map[string]any
+	err     error
+}
+
+func runShard(dir string, spec propSpec, prop string, seed uint64, from, to int, tier string, budget time.Duration, k int, extra ...string) shardResult {
+	bin := filepath.Join(dir, "bin", "worker")
+	if spec.race {
+		bin = filepath.Join(dir, "bin", "worker-race")
+	}
+	out := filepath.Join(dir, fmt.Sprintf("shard-%d.jsonl", k))
+	args := []string{"-engine", spec.engine, "-prop", prop, "-seed", fmt.Sprint(seed), "-from", fmt.Sprint(from), "-to", fmt.Sprint(to), "-tier", tier,
+		"-sites", filepath.Join(dir, "sites.json"), "-budget", budget.String(), "-o", out}
+	args = append(args, extra...)
+	cmd := exec.Command(bin, args...)
+	cmd.Env = workerEnv(dir, spec.race, false)
+	var stderr strings.Builder
+	cmd.Stderr = &stderr
+	if err := cmd.Run(); err != nil {
+		return shardResult{err: fmt.Errorf("worker shard %d: %v\n%s", k, err, tail(stderr.String(), 2000))}
+	}
+	return readShard(out)
+}
+
+func tail(s string, n int) string {
+	if len(s) > n {
+		return s[len(s)-n:]
+	}
+	return s
+}
+
+func readShard(path string) shardResult {
+	var res shardResult
+	f, err := os.Open(path)
+	if err != nil {
+		res.err = err
+		return res
+	}
+	defer f.Close()
+	sc := bufio.NewScanner(f)
+	sc.Buffer(make([]byte, 1<<20), 1<<30)
+	for sc.Scan() {
+		line := sc.Bytes()
+		var head struct {
+			Kind string `json:"kind"`
+		}
+		if err := json.Unmarshal(line, &head); err != nil {
+			res.err = fmt.Errorf("bad worker output: %v", err)
+			return res
+		}
+		switch head.Kind {
+		case "failure", "replay", "minimized":
+			var fl failure
+			json.Unmarshal(line, &fl)
+			res.fails = append(res.fails, fl)
+		case "summary":
+			json.Unmarshal(line, &res.summary)
+		}
+	}
+	if res.summary == nil && len(res.fails) == 0 {
+		res.err = fmt.Errorf("worker wrote no summary to %s", path)
+	}
+	return res
+}
+
+func loadKnown() []knownFinding {
+	b, err := os.ReadFile(filepath.Join(verifDir, "known_findings.json"))
+	if err != nil {
+		return nil
+	}
+	var k []knownFinding
+	if err := json.Unmarshal(b, &k); err != nil {
+		fatal("known_findings.json: %v", err)
+	}
+	return k
+}
+
+// matchKnown returns the listed finding (status known) that explains f, if any.
+func matchKnown(known []knownFinding, prop string, f *failure) *knownFinding {
+	var out struct {
+		Class     string   `json:"class"`
+		Races     []struct{ A, B string } `json:"races"`
+		HistFuncs []string `json:"history_funcs"`
+		Funcs     []string `json:"rare_funcs"`
+		Violations []struct {
+			Kind string `json:"kind"`
+			What string `json:"what"`
+		} `json:"violations"`
+	}
+	json.Unmarshal(f.Outcome, &out)
+	var sc struct {
+		Knobs map[string]any `json:"knobs"`
+	}
+	json.Unmarshal(f.Scenario, &sc)
+	for i := range known {
+		k := &known[i]
+		if k.Status != "known" || k.Property != prop {
+			continue
+		}
+		switch k.Kind {
+		case "race":
+			if out.Class != "race" || len(out.Races) == 0 {
+				continue
+			}
+			want, _ := k.Key["race_pair"].(string)
+			all := true
+			for _, r := range out.Races {
+				if r.A+" <-> "+r.B != want {
+					all = false
+				}
+			}
+			if all {
+				return k
+			}
+		case "result":
+			if out.Class != "result" && out.Class != "history" {
+				continue
+			}
+			ok := true
+			if v, has := k.Key["knob_nondefault"]; has {
+				name, _ := v.(string)
+				if sc.Knobs == nil || sc.Knobs[name] == nil {
+					ok = false
+				}
+			}
+			if v, has := k.Key["history_func"]; has {
+				name, _ := v.(string)
+				found := false
+				for _, fn := range out.HistFuncs {
+					if fn == name {
+						found = true
+					}
+				}
+				if !found {
+					ok = false
+				}
+			}
+			if ok {
+				return k
+			}
+		case "invariant", "alloc":
+			if out.Class != "invariant" && out.Class != "alloc" {
+				continue
+			}
+			sub, _ := k.Key["what_contains"].(string)
+			if sub == "" {
+				continue
+			}
+			all := len(out.Violations) > 0
+			for _, v := range out.Violations {
+				if (v.Kind == "invariant" || v.Kind == "alloc") && !strings.Contains(v.What, sub) {
+					all = false
+				}
+			}
+			if all {
+				return k
+			}
+		}
+	}
+	return nil
+}
+
+func failKey(f *failure) string {
+	var out struct {
+		Class string `json:"class"`
+		Races []struct{ A, B string } `json:"races"`
+		What  string `json:"what"`
+		Violations []struct {
+			Kind string `json:"kind"`
+			What string `json:"what"`
+		} `json:"violations"`
+	}
+	json.Unmarshal(f.Outcome, &out)
+	k := out.Class
+	if len(out.Races) > 0 {
+		k += ":" + out.Races[0].A + " <-> " + out.Races[0].B
+	}
+	if out.What != "" {
+		k += ":" + out.What
+	}
+	if len(out.Violations) > 0 {
+		w := out.Violations[0].What
+		if i := strings.Index(w, " uses "); i > 0 {
+			w = w[:i]
+		}
+		k += ":" + out.Violations[0].Kind + ":" + w
+	}
+	return k
+}
+
+func check(prop, tier string) int {
+	spec, ok := props[prop]
+	if !ok {
+		fatal("property %s is not claimed by this framework", prop)
+	}
+	start := time.Now()
+	seed := baseSeed(tier)
+	dir, cleanup := scratch()
+	defer cleanup()
+	os.MkdirAll(filepath.Join(dir, "logs"), 0o755)
+	buildS := time.Since(start).Seconds()
+
+	total, wall := spec.quick, spec.capQ
+	if tier == "thorough" {
+		total, wall = spec.thor, spec.capT
+	}
+	nsh := runtime.NumCPU()
+	if nsh > 16 {
+		nsh = 16
+	}
+	per := (total + nsh - 1) / nsh
+	results := make([]shardResult, nsh)
+	var wg sync.WaitGroup
+	for k := 0; k < nsh; k++ {
+		wg.Add(1)
+		go func(k int) {
+			defer wg.Done()
+			results[k] = runShard(dir, spec, prop, seed, k*per, (k+1)*per, tier, wall, k)
+		}(k)
+	}
+	wg.Wait()
+	var fails []failure
+	var sums []map[string]any
+	for k, r := range results {
+		if r.err != nil {
+			fmt.Fprintf(os.Stderr, "vsim: %v\n", r.err)
+			fmt.Printf("INFRASTRUCTURE property=%s shard=%d failed (no verdict)\n", prop, k)
+			return 2
+		}
+		fails = append(fails, r.fails...)
+		sums = append(sums, r.summary)
+	}
+	// extra engines
+	var extraEvidence map[string]any
+	if prop == "C20" {
+		ev, afails, err := allocCheck(dir, seed, tier)
+		if err != nil {
+			fmt.Fprintf(os.Stderr, "vsim: %v\n", err)
+			return 2
+		}
+		extraEvidence = ev
+		fails = append(fails, afails...)
+	}
+
+	known := loadKnown()
+	knownSeen := map[string]int{}
+	deferred := 0
+	unlistedHistory := 0
+	var unknown []failure
+	for i := range fails {
+		f := &fails[i]
+		var oc struct {
+			Class string `json:"class"`
+		}
+		json.Unmarshal(f.Outcome, &oc)
+		if prop == "C06" && oc.Class == "history" {
+			// persists without interleaving: history dependence, C13's business
+			if matchKnown(known, "C13", f) != nil {
+				deferred++
+				continue
+			}
+			deferred++
+			unlistedHistory++
+			continue
+		}
+		if k := matchKnown(known, prop, f); k != nil {
+			knownSeen[k.ID]++
+			continue
+		}
+		if (prop == "C10" || prop == "C20") && oc.Class == "result" {
+			// history dependence already listed under C13 is not a second finding
+			if matchKnown(known, "C13", f) != nil {
+				deferred++
+				continue
+			}
+		}
+		if prop == "C06" && oc.Class == "result" {
+			// a result difference in a run whose value is subject to a listed C13 finding is not attributable to interleaving
+			if matchKnown(known, "C13", f) != nil {
+				deferred++
+				continue
+			}
+		}
+		unknown = append(unknown, *f)
+	}
+
+	// minimise and confirm unknown failures (one per distinct key, at most 5)
+	violations := 0
+	var violLines []string
+	seenKeys := map[string]bool{}
+	os.MkdirAll(filepath.Join(verifDir, "replays"), 0o755)
+	for i := range unknown {
+		f := &unknown[i]
+		key := failKey(f)
+		if seenKeys[key] || len(seenKeys) >= 5 {
+			continue
+		}
+		seenKeys[key] = true
+		path, reproduced, stillUnknown := minimiseAndConfirm(dir, spec, prop, f, known, len(seenKeys))
+		if !reproduced {
+			fmt.Printf("INFRASTRUCTURE property=%s a failing run (index %d) did not reproduce from its replay file %s\n", prop, f.Index, path)
+			writeEvidence(prop, tier, seed, sums, start, buildS, nsh, violations, knownSeen, deferred, extraEvidence, "replay did not reproduce")
+			return 2
+		}
+		if !stillUnknown {
+			continue
+		}
+		violations++
+		violLines = append(violLines, fmt.Sprintf("VIOLATION property=%s replay=%s", prop, path))
+	}
+
+	// re-observe listed findings from their committed replays
+	for i := range known {
+		k := &known[i]
+		if k.Status != "known" || k.Property != prop {
+			continue
+		}
+		if k.Replay != "" {
+			if reproduces(dir, spec, filepath.Join(verifDir, k.Replay)) {
+				knownSeen[k.ID]++
+			}
+		}
+		if knownSeen[k.ID] > 0 {
+			fmt.Printf("KNOWN-FINDING: property=%s %s [%s; observed %d time(s) in this run]\n", prop, k.What, k.ID, knownSeen[k.ID])
+		}
+	}
+	if unlistedHistory > 0 {
+		fmt.Printf("NOTE property=C06 %d run(s) showed a result difference that persists without interleaving and matches no listed C13 finding (history dependence is decided by the C13 check, not here)\n", unlistedHistory)
+	}
+	for _, l := range violLines {
+		fmt.Println(l)
+	}
+	writeEvidence(prop, tier, seed, sums, start, buildS, nsh, violations, knownSeen, deferred, extraEvidence, "")
+	if violations > 0 {
+		return 1
+	}
+	fmt.Printf("OK property=%s tier=%s seed=%d runs=%d wall=%.0fs\n", prop, tier, seed, totalRuns(sums), time.Since(start).Seconds())
+	return 0
+}
+
+func totalRuns(sums []map[string]any) int {
+	n := 0
+	for _, s := range sums {
+		if v, ok := s["runs"].(float64); ok {
+			n += int(v)
+		}
+	}
+	return n
+}
+
+func engineOf(f *failure) string { return f.Engine }
+
+// minimiseAndConfirm shrinks the failing scenario in a fresh worker process,
+// stores the replay file and replays it in another fresh process.
+func minimiseAndConfirm(dir string, spec propSpec, prop string, f *failure, known []knownFinding, n int) (path string, reproduced bool, stillUnknown bool) {
+	raw := filepath.Join(dir, fmt.Sprintf("fail-%d.json", n))
+	b, _ := json.Marshal(f)
+	os.WriteFile(raw, b, 0o644)
+	min := filepath.Join(dir, fmt.Sprintf("min-%d.jsonl", n))
+	eng := f.Engine
+	if eng == "alloc" {
+		path = filepath.Join(verifDir, "replays", fmt.Sprintf("%s-%d-%d.json", prop, f.Seed, f.Index))
+		os.WriteFile(path, b, 0o644)
+		return path, reproduces(dir, spec, path), true
+	}
+	bin := filepath.Join(dir, "bin", "worker")
+	race := spec.race && eng == "conc"
+	if race {
+		bin = filepath.Join(dir, "bin", "worker-race")
+	}
+	cmd := exec.Command(bin, "-engine", eng, "-prop", prop, "-sites", filepath.Join(dir, "sites.json"), "-minimize", raw, "-o", min)
+	cmd.Env = workerEnv(dir, race, true)
+	cmd.Stderr = os.Stderr
+	cmd.Run()
+	best := *f
+	if r := readShard(min); r.err == nil && len(r.fails) > 0 {
+		var oc struct {
+			Class string `json:"class"`
+		}
+		json.Unmarshal(r.fails[0].Outcome, &oc)
+		if oc.Class != "" {
+			best = r.fails[0]
+		}
+	}
+	best.Kind = "replay-file"
+	path = filepath.Join(verifDir, "replays", fmt.Sprintf("%s-%d-%d.json", prop, f.Seed, f.Index))
+	bb, _ := json.MarshalIndent(map[string]any{"property": prop, "engine": eng, "index": best.Index, "seed": best.Seed, "outcome": best.Outcome, "scenario": best.Scenario}, "", " ")
+	os.WriteFile(path, bb, 0o644)
+	// fresh-process replay
+	rout := filepath.Join(dir, fmt.Sprintf("replay-%d.jsonl", n))
+	cmd = exec.Command(bin, "-engine", eng, "-prop", prop, "-sites", filepath.Join(dir, "sites.json"), "-replay", path, "-o", rout)
+	cmd.Env = workerEnv(dir, race, true)
+	cmd.Stderr = os.Stderr
+	cmd.Run()
+	r := readShard(rout)
+	if r.err != nil || len(r.fails) == 0 {
+		return path, false, true
+	}
+	var oc struct {
+		Class string `json:"class"`
+	}
+	json.Unmarshal(r.fails[0].Outcome, &oc)
+	if oc.Class == "" {
+		return path, false, true
+	}
+	// with report suppression off the replay lists all of its races: re-match against the listed findings
+	if matchKnown(known, prop, &r.fails[0]) != nil {
+		os.Remove(path)
+		return path, true, false
+	}
+	if prop == "C06" {
+		var mc struct {
+			Class string `json:"class"`
+		}
+		json.Unmarshal(best.Outcome, &mc)
+		if mc.Class == "history" || oc.Class == "history" {
+			fmt.Printf("NOTE property=C06 run index=%d: the minimised failing execution has no preemption (sequential history dependence, decided by the C13 check); replay kept at %s\n", f.Index, path)
+			return path, true, false
+		}
+		if matchKnown(known, "C13", &r.fails[0]) != nil {
+			os.Remove(path)
+			return path, true, false
+		}
+	}
+	return path, true, true
+}
+
+func reproduces(dir string, spec propSpec, path string) bool {
+	b, err := os.ReadFile(path)
+	if err != nil {
+		return false
+	}
+	var head struct {
+		Engine string `json:"engine"`
+		Property string `json:"property"`
+	}
+	json.Unmarshal(b, &head)
+	bin := filepath.Join(dir, "bin", "worker")
+	race := head.Engine == "conc"
+	if race {
+		bin = filepath.Join(dir, "bin", "worker-race")
+	}
+	rout := filepath.Join(dir, "known-replay.jsonl")
+	cmd := exec.Command(bin, "-engine", head.Engine, "-prop", head.Property, "-sites", filepath.Join(dir, "sites.json"), "-replay", path, "-o", rout)
+	cmd.Env = workerEnv(dir, race, true)
+	cmd.Run()
+	r := readShard(rout)
+	if r.err != nil || len(r.fails) == 0 {
+		return false
+	}
+	var oc struct {
+		Class string `json:"class"`
+	}
+	json.Unmarshal(r.fails[0].Outcome, &oc)
+	return oc.Class != ""
+}
+
+func replay(path string) int {
+	b, err := os.ReadFile(path)
+	if err != nil {
+		fatal("%v", err)
+	}
+	var head struct {
+		Engine   string `json:"engine"`
+		Property string `json:"property"`
+	}
+	json.Unmarshal(b, &head)
+	dir, cleanup := scratch()
+	defer cleanup()
+	os.MkdirAll(filepath.Join(dir, "logs"), 0o755)
+	bin := filepath.Join(dir, "bin", "worker")
+	race := head.Engine == "conc"
+	if race {
+		bin = filepath.Join(dir, "bin", "worker-race")
+	}
+	rout := filepath.Join(dir, "replay.jsonl")
+	cmd := exec.Command(bin, "-engine", head.Engine, "-prop", head.Property, "-sites", filepath.Join(dir, "sites.json"), "-replay", path, "-o", rout)
+	cmd.Env = workerEnv(dir, race, true)
+	cmd.Stderr = os.Stderr
+	cmd.Run()
+	r := readShard(rout)
+	if r.err != nil || len(r.fails) == 0 {
+		fmt.Println("INFRASTRUCTURE replay produced no outcome")
+		return 2
+	}
+	var oc map[string]any
+	json.Unmarshal(r.fails[0].Outcome, &oc)
+	pretty, _ := json.MarshalIndent(oc, "", " ")
+	fmt.Println(string(pretty))
+	if c, _ := oc["class"].(string); c != "" {
+		fmt.Printf("VIOLATION property=%s replay=%s\n", head.Property, path)
+		return 1
+	}
+	fmt.Println("replay: no violation reproduced")
+	return 0
+}
+
+// ---- evidence ---------------------------------------------------------------
+
+func sumF(sums []map[string]any, key string) float64 {
+	t := 0.0
+	for _, s := range sums {
+		if v, ok := s[key].(float64); ok {
+			t += v
+		}
+	}
+	return t
+}
+
+func mergeCounts(sums []map[string]any, key string) map[string]int {
+	out := map[string]int{}
+	for _, s := range sums {
+		if m, ok := s[key].(map[string]any); ok {
+			for k, v := range m {
+				if f, ok := v.(float64); ok {
+					out[k] += int(f)
+				}
+			}
+		}
+	}
+	return out
+}
+
+func writeEvidence(prop, tier string, seed uint64, sums []map[string]any, start time.Time, buildS float64, nsh, violations int, knownSeen map[string]int, deferred int, extra map[string]any, trouble string) {
+	distinct := map[float64]bool{}
+	states := map[float64]bool{}
+	var samples []any
+	extras := map[string]any{}
+	for _, s := range sums {
+		if l, ok := s["nontrivial_hashes"].([]any); ok {
+			for _, h := range l {
+				if f, ok := h.(float64); ok {
+					distinct[f] = true
+				}
+			}
+		}
+		if l, ok := s["samples"].([]any); ok && len(samples) < 3 {
+			samples = append(samples, l...)
+		}
+		if ex, ok := s["extra"].(map[string]any); ok {
+			for k, v := range ex {
+				switch k {
+				case "abstract_states":
+					if l, ok := v.([]any); ok {
+						for _, h := range l {
+							if f, ok := h.(float64); ok {
+								states[f] = true
+							}
+						}
+					}
+				case "checked_calls", "gated_pure_divergence":
+					if f, ok := v.(float64); ok {
+						prev, _ := extras[k].(float64)
+						extras[k] = prev + f
+					}
+				case "step_kinds", "shapes":
+					m, _ := extras[k].(map[string]int)
+					if m == nil {
+						m = map[string]int{}
+					}
+					if mm, ok := v.(map[string]any); ok {
+						for kk, vv := range mm {
+							if f, ok := vv.(float64); ok {
+								m[kk] += int(f)
+							}
+						}
+					}
+					extras[k] = m
+				}
+			}
+		}
+	}
+	if len(samples) > 3 {
+		samples = samples[:3]
+	}
+	runs := totalRuns(sums)
+	wall := time.Since(start).Seconds()
+	runWall := wall - buildS
+	if runWall <= 0 {
+		runWall = 1
+	}
+	cov := map[string]any{
+		"evaluations":          runs,
+		"distinct_nontrivial":  len(distinct),
+		"samples":              samples,
+		"simulated_runs_per_hour": int(float64(runs) / runWall * 3600),
+		"seeds_per_hour":          int(float64(runs) / runWall * 3600),
+		"worker_processes":     nsh,
+		"build_seconds":        buildS,
+		"failures_by_class":    mergeCounts(sums, "failures"),
+		"strategies_covered":   mergeCounts(sums, "strategies"),
+		"knob_usage":           mergeCounts(sums, "knobs"),
+		"probes":               mergeCounts(sums, "probes"),
+		"known_findings_observed": knownSeen,
+		"deferred_to_other_property": deferred,
+		"components": map[string]any{
+			"real": []string{"every coregex package (instrumented copy of /repo's working tree, source-identical except inserted simrt.Yield calls and the pool type)", "github.com/coregx/ahocorasick", "assembly kernels (atomic steps)", "sync/atomic", "Go race detector (C06)"},
+			"stub": []string{"sync.Pool -> simrt.Pool (simulator-decided hit/miss/order/drop)", "goroutine scheduling -> simrt scheduler (one runnable worker, seeded hand-off)", "io.RuneReader sources -> simulated streams"},
+		},
+	}
+	cells := mergeCounts(sums, "cells")
+	cov["strategy_x_api_cells_covered"] = len(cells)
+	switch props[prop].engine {
+	case "conc":
+		cov["rule"] = "one evaluation = one simulated concurrent run (seeded pattern+knobs+2..8 workers x 1..6 calls, seeded schedule policy and pool fault plan); non-trivial = at least one preemption (context switch inside library code while another call is in flight); distinct = distinct hash of (pattern, knobs, per-worker operations, schedule tape actually followed)"
+		cov["simulated_time_steps"] = int64(sumF(sums, "steps"))
+		cov["context_switches"] = int64(sumF(sums, "switches"))
+		cov["preemptions"] = int64(sumF(sums, "preempts"))
+		cov["schedule_policies"] = mergeCounts(sums, "policies")
+		cov["step_budget_exceeded_runs"] = int(sumF(sums, "over_budget"))
+		cov["yield_sites_visited_max_shard"] = maxF(sums, "sites_hit")
+		cov["yield_sites_total"] = maxF(sums, "sites_total")
+		cov["faults_fired"] = map[string]int64{"pool_put_dropped": int64(sumF(sums, "pool_drops")), "pool_get_forced_miss": int64(sumF(sums, "pool_misses")), "pool_get_reordered": int64(sumF(sums, "pool_reorders")),
+			"forced_preemption_at_site": int64(sumF(sums, "forced_fired")), "pool_gets": int64(sumF(sums, "pool_gets")), "pool_puts": int64(sumF(sums, "pool_puts")), "pool_news": int64(sumF(sums, "pool_news"))}
+	case "history":
+		cov["rule"] = "one evaluation = one seeded history (5..60 steps: checked calls, bursts, Longest/Copy/twin/POSIX, pool flushes, recovered callback panics, steered generation time-skips) on aged values, each checked call compared with a fresh value used once; non-trivial = some checked call was served by state that had served a different haystack before; distinct = distinct hash of (pattern, knobs, steps)"
+		cov["abstract_recycled_states_observed"] = len(states)
+		cov["faults_fired"] = map[string]int64{"pool_put_dropped": int64(sumF(sums, "pool_drops")), "pool_get_forced_miss": int64(sumF(sums, "pool_misses")), "pool_get_reordered": int64(sumF(sums, "pool_reorders")),
+			"pool_gets": int64(sumF(sums, "pool_gets")), "pool_puts": int64(sumF(sums, "pool_puts")), "pool_news": int64(sumF(sums, "pool_news"))}
+		cov["simulated_time_steps"] = extras["checked_calls"]
+	case "stream":
+		cov["rule"] = "one evaluation = one simulated rune stream (explicit ReadRune result list: runes, widths, injected errors with/without a rune, readers that resume after an error, dishonest widths) fed to both libraries (or to reader and string views of one value for C11); non-trivial = a fault fired before the end of the source or widths were dishonest, and the purity gate passed; distinct = distinct (fault-plan shape, strategy) pairs"
+	}
+	for k, v := range extras {
+		cov[k] = v
+	}
+	for k, v := range extra {
+		cov[k] = v
+	}
+	if trouble != "" {
+		cov["trouble"] = trouble
+	}
+	if len(samples) == 0 {
+		cov["samples"] = []any{map[string]any{"note": "no non-trivial sample recorded in this run"}}
+	}
+	ev := map[string]any{
+		"property_id": prop, "tier": tier, "seed": int64(seed & 0x7fffffffffffffff), "level": "exploration", "coverage": cov, "wall_s": wall, "violations": violations,
+		"assumptions": []string{"a clean batch is evidence, not proof: schedules, histories and streams are sampled from a seeded generator",
+			"preemption granularity is one basic block of library code; assembly kernels and ahocorasick run as atomic steps",
+			"the race detector's happens-before model (with the simulator's own hand-off hidden from it) is trusted for race reports",
+			"hook-only knobs (lazy-DFA cache capacity, clear budget, visited cap) take values the lower-level public packages accept"},
+	}
+	os.MkdirAll(filepath.Join(verifDir, "evidence"), 0o755)
+	b, _ := json.MarshalIndent(ev, "", " ")
+	if err := os.WriteFile(filepath.Join(verifDir, "evidence", prop+".json"), b, 0o644); err != nil {
+		fatal("writing evidence: %v", err)
+	}
+}
+
+func maxF(sums []map[string]any, key string) int {
+	m := 0.0
+	for _, s := range sums {
+		if v, ok := s[key].(float64); ok && v > m {
+			m = v
+		}
+	}
+	return int(m)
+}
+
+// ---- determinism self-test ----------------------------------------------------
+
+func selftest() int {
+	dir, cleanup := scratch()
+	defer cleanup()
+	os.MkdirAll(filepath.Join(dir, "logs"), 0o755)
+	bad := 0
+	for _, eng := range []string{"conc", "history"} {
+		spec := propSpec{engine: eng, race: eng == "conc"}
+		prop := "C06"
+		if eng == "history" {
+			prop = "C13"
+		}
+		type key struct{ idx int }
+		ref := map[int]float64{}
+		n := 0
+		for _, procs := range []int{1, 4, 16} {
+			for rep := 0; rep < 3; rep++ {
+				os.Setenv("GOMAXPROCS", fmt.Sprint(procs))
+				r := runShard(dir, spec, prop, 7, 0, 96, "quick", 10*time.Minute, 100+n, "-loghashes")
+				n++
+				if r.err != nil {
+					fmt.Fprintln(os.Stderr, r.err)
+					return 2
+				}
+				lh, _ := r.summary["log_hashes"].(map[string]any)
+				for k, v := range lh {
+					i, _ := strconv.Atoi(k)
+					f, _ := v.(float64)
+					if prev, ok := ref[i]; ok && prev != f {
+						fmt.Printf("DIVERGENCE engine=%s run index=%d GOMAXPROCS=%d\n", eng, i, procs)
+						bad++
+					}
+					ref[i] = f
+				}
+			}
+		}
+		os.Unsetenv("GOMAXPROCS")
+		keys := make([]int, 0, len(ref))
+		for k := range ref {
+			keys = append(keys, k)
+		}
+		sort.Ints(keys)
+		fmt.Printf("selftest engine=%s: %d runs x 9 processes (GOMAXPROCS 1,4,16 x3) compared\n", eng, len(keys))
+	}
+	if bad > 0 {
+		return 2
+	}
+	fmt.Println("selftest OK: every run's event-log hash identical in all processes")
+	return 0
+}
